@@ -16,7 +16,7 @@
 From Avfs Require Import Base PathModel PathSpec PathProofs PathCleanProofs PathIterProofs.
 From Coq Require Import Permutation.
 From Avfs Require Import MemFS MemFile World Posix Inv WalkBridge WalkSym WalkBudget WalkReadlink WalkRel StepEq WalkInv StepInv
-  HeapEq HeapEqSnap StepRename StepRenameDir StepHist StepCwd StepMkdirAll StepHistM StepRemoveAll StepRemoveAllEx StepOpen StepHistO StepNamePath StepCwdCreate.
+  HeapEq HeapEqSnap StepRename StepRenameDir StepHist StepCwd StepMkdirAll StepHistM StepRemoveAll StepRemoveAllEx StepOpen StepHistO StepNamePath StepCwdCreate StepRemoveAllExact.
 
 Theorem C01_step_stat : forall (s : fsys) (sv : sview) (cs : list str),
   step_hyps s sv -> path_ok s sv SlStat cs ->
@@ -594,3 +594,38 @@ Example C01_history_inv_cwd_example :
   /\ snd (spec_run StepExamples.sw_tree StepCwdCreateExamples.hd)
      = [SOk; SOk; SOk; SOk; SOk; SOk; SStr (abs_path [WalkSymExamples.s_d; WalkSymExamples.s_e])].
 Proof. split; [exact StepCwdCreateExamples.hd_inv|exact StepCwdCreateExamples.hd_results]. Qed.
+
+(* ---- RemoveAll inside histories ----------------------------------------------------------------------------------------------------------- *)
+(* The two final heaps of RemoveAll can differ only on links listed (before the call) by a directory of the removed subtree
+   ([top_sim_x]).  When no directory below the target lists a link ([nolink_target]) the final file systems are EQUAL, for
+   every outcome of the walk, and RemoveAll joins the history theorem on the states of C05. *)
+Theorem C01_step_remove_all_exact : forall (s : fsys) (sv : sview) (w : list str) (cl : str),
+  step_hyps s sv -> Inv_heap (f_heap s) -> sym_single (f_heap s) -> path_ok s sv SlLstat (w ++ [cl]) ->
+  nolink_target s sv (abs_path (w ++ [cl])) ->
+  let p := abs_path (w ++ [cl]) in
+  (fst (remove_all s (sv_view sv) p), proj_res Linux (snd (remove_all s (sv_view sv) p))) = go_remove_all s sv p.
+Proof. exact step_remove_all_exact. Qed.
+
+(* os.RemoveAll keeps the hypotheses on links (with or without links in the subtree) *)
+Theorem C01_links_ok_remove_all : forall (s : fsys) (sv : sview) (p : str),
+  us_admin (v_user (sv_view sv)) = true -> Inv_heap (f_heap s) -> links_ok (f_heap s) ->
+  links_ok (f_heap (fst (go_remove_all s sv p))).
+Proof. exact links_ok_go_remove_all. Qed.
+
+Theorem C01_history_inv_r : forall (vi : nat) (cs : list call) (w : world) (sw : sworld),
+  Inv w -> absw w vi sw -> us_admin (v_user (sv_view (sw_sv sw))) = true -> links_ok (f_heap (w_fs w)) ->
+  call_ok_run_r vi sw cs ->
+  Forall2 obs_sim (snd (impl_run w cs)) (snd (spec_run sw cs))
+  /\ absw (fst (impl_run w cs)) vi (fst (spec_run sw cs))
+  /\ Inv (fst (impl_run w cs)) /\ links_ok (f_heap (w_fs (fst (impl_run w cs)))).
+Proof. exact history_inv_r. Qed.
+
+(* MkdirAll "/priv/x/missing"; WriteFile "/priv/x/f"; RemoveAll "/priv"; Lstat "/priv"; Mkdir "/priv"; RemoveAll "/priv" *)
+Example C01_history_inv_r_example :
+  Forall2 obs_sim (snd (impl_run StepExamples.w_tree StepRemoveAllExactExamples.hr))
+                  (snd (spec_run StepExamples.sw_tree StepRemoveAllExactExamples.hr))
+  /\ absw (fst (impl_run StepExamples.w_tree StepRemoveAllExactExamples.hr)) 0
+          (fst (spec_run StepExamples.sw_tree StepRemoveAllExactExamples.hr))
+  /\ Inv (fst (impl_run StepExamples.w_tree StepRemoveAllExactExamples.hr))
+  /\ links_ok (f_heap (w_fs (fst (impl_run StepExamples.w_tree StepRemoveAllExactExamples.hr)))).
+Proof. exact StepRemoveAllExactExamples.hr_inv. Qed.
